@@ -202,7 +202,7 @@ pub fn run(ctx: &Ctx) -> Report {
         run_case(&mut rep, w["seed"].as_u64().unwrap_or(ctx.seed), w["case"].as_u64().unwrap_or(0), force, w["thorough"].as_bool().unwrap_or(false));
         return rep;
     }
-    let n = ctx.budget(2000, 100_000);
+    let n = ctx.budget(15_000, 300_000);
     let seed = ctx.seed;
     let thorough = !ctx.quick();
     let mut rep = parallel(ctx.threads, |shard, nsh| {
